@@ -83,13 +83,14 @@ def build_tools(log, pid=None, want_harness=True):
             f.write(open(gosum).read())
         modflag = ["-modfile=" + os.path.join(mf, "go.mod")]
     cmd = ["go", "build", "-tags", "verif"] + modflag + (["-race"] if RACE_PROPS.get(pid) else []) + \
-          ["-o", os.path.join(BUILD, "bin", pid.lower() + SUFFIX), "./cmd/" + pid.lower()]
+          ["-o", os.path.join(BUILD, "bin", HARNESS_CMD.get(pid, pid.lower()) + SUFFIX), "./cmd/" + HARNESS_CMD.get(pid, pid.lower())]
     rc, out = sh(cmd, cwd=h, env=env, timeout=900)
     log.append(("build harness", rc, out))
     return rc == 0
 
 
 RACE_PROPS = {}
+HARNESS_CMD = {}   # property id -> harness program directory (default: the lower-cased id)
 
 
 def translate(parts, log):
@@ -235,7 +236,7 @@ def print_assumptions(props_v, log):
 
 def run_case_file(path):
     t0 = time.time()
-    rc, out = sh(["timeout", "900", "coqc", "-Q", COQ, "NV", "-w", "-notation-overridden", path],
+    rc, out = sh(["bash", "-c", "ulimit -s 4000000 2>/dev/null || ulimit -s unlimited 2>/dev/null; exec timeout 900 coqc -Q %s NV -w -notation-overridden %s" % (COQ, path)],
                  cwd=os.path.dirname(path), timeout=1000)
     flat = " ".join(out.split())
     m = re.search(r"M = \[(.*?)\]\s*:", flat)
@@ -350,6 +351,10 @@ def check_locked(cfg, tier, seed, replay=None):
     """cfg keys: id, gen (translator parts), model_targets, proof_targets, props_file,
     harness (bool), mismatch_is_failure (bool), level, trusted_base, assumptions, rule, explanation"""
     pid = cfg["id"]
+    if cfg.get("harness_cmd"):
+        HARNESS_CMD[pid] = cfg["harness_cmd"]
+    if cfg.get("race"):
+        RACE_PROPS[pid] = True
     t0 = time.time()
     log = []
     outdir = os.path.join(BUILD, pid + SUFFIX)
@@ -402,11 +407,11 @@ def check_locked(cfg, tier, seed, replay=None):
     failures, known_hits = [], []
     mismatches, case_errors, n_case_files = [], [], 0
     if tools_ok and cfg.get("harness", True):
-        args = [os.path.join(BUILD, "bin", pid.lower() + SUFFIX), outdir, tier, str(seed)]
+        args = [os.path.join(BUILD, "bin", HARNESS_CMD.get(pid, pid.lower()) + SUFFIX), outdir, tier, str(seed)]
         if replay:
             args.append(replay)
         try:
-            rc, out = sh(args, timeout=cfg.get("harness_timeout", 3000), env=dict(GOENV, VERIF_REPO=REPO))
+            rc, out = sh(args, timeout=cfg.get("harness_timeout", 3000), env=dict(GOENV, VERIF_REPO=REPO, VERIF_PROP=pid))
         except subprocess.TimeoutExpired:
             rc, out = 124, "harness timed out"
         log.append(("harness", rc, out))
